@@ -16,14 +16,23 @@ def run(tier):
             if n[0] in (100, 9000):
                 c.sample({"direction": "spec->code", "case": o})
         res = vlib.run_tlc("MC_Request", "MC_Request_%s.cfg" % tier, "C12/mc", workers=8, timeout=1200, print_sink=sink)
-    vlib.expect_model_ok(res, "Request.tla")
-    c.add_model("MC_Request/%s" % tier, res)
-    if n[0] != 16383:
-        raise vlib.ToolError("expected 16383 version-list cases from MC_Request, got %d" % n[0])
+        vlib.expect_model_ok(res, "Request.tla")
+        c.add_model("MC_Request/%s" % tier, res)
+        if n[0] != 16383:
+            raise vlib.ToolError("expected 16383 version-list cases from MC_Request, got %d" % n[0])
+        # adversarial unknown version numbers: neighbouring entries that contain the draft-13 bytes across their boundary,
+        # the number without its top bit, the byte-swapped number
+        res2 = vlib.run_tlc("MC_Request", "MC_Request_adv_%s.cfg" % tier, "C12/mc2", workers=8, timeout=1200, print_sink=sink)
+        vlib.expect_model_ok(res2, "Request.tla (adversarial version numbers)")
+        c.add_model("MC_Request_adv/%s" % tier, res2)
+        want = {"quick": 16383 + 3 * 820, "thorough": 16383 + 3 * 11111}[tier]
+        if n[0] != want:
+            raise vlib.ToolError("expected %d version-list cases in all, got %d" % (want, n[0]))
     ev, _ = sc.server_stage(c, "versions,srv,mixed", "versions", inp=cases)
     sc.sample_round(c, ev)
     c.rule = ("spec->code: all 5461 VER lists of length 0..6 over {draft-13, classic 0, two unknown numbers} x SRV {absent, this server's, "
-              "another server's} = 16383 framed requests, each followed by a sentinel; plus, for the minimal list, SRV under each of the 256 "
+              "another server's} = 16383 framed requests, each followed by a sentinel; all lists of length 0..3 (thorough: 0..4) over draft-13 and eight "
+              "adversarial unknown numbers (neighbours containing the draft-13 bytes across their boundary, top bit cleared, byte-swapped); plus, for the minimal list, SRV under each of the 256 "
               "single-bit corruptions, lengths {0,4,28,36,64} and another server's value; TLC classifies every arrival (must/mustnot/may) and "
               "checks reply presence and the signed VER/VERS fields")
     c.exhaustive = True
